@@ -471,7 +471,7 @@ func propOne(c Case) error {
 				if !copied {
 					return fmt.Errorf("%s: intersection is the endpoint %v but %v was reported", what, co(c.P[atEndpoint]), pts[0])
 				}
-			} else if c.Integer || strings.HasPrefix(c.Class, "float:") {
+			} else if c.Integer || strings.HasPrefix(c.Class, "float:") && moderate(c) {
 				bx, by := pointBound(P, x)
 				if !c.Integer {
 					// the bound is derived for exactly representable differences; float
@@ -555,6 +555,20 @@ func propOne(c Case) error {
 		return fmt.Errorf("inputs modified")
 	}
 	return nil
+}
+
+// moderate: every ordinate is zero or between 2^-500 and 2^500 in magnitude, so that no
+// product or quotient of the computation under- or overflows (the statement's
+// "rounding distance" presumes that; a nudged zero is a denormal).
+func moderate(c Case) bool {
+	for _, p := range c.P {
+		for _, f := range p {
+			if v := math.Abs(f.V()); v != 0 && (v < 0x1p-500 || v > 0x1p500) {
+				return false
+			}
+		}
+	}
+	return true
 }
 
 func nearEnvelopeBorder(P [4]exact.P2, x exact.P2, bx, by *big.Rat) bool {
